@@ -749,6 +749,8 @@ def gen_genomic(tier, rng):
                     if op.startswith("track") and not bedgraph_rows(counts):
                         continue
                     if op in ("values", "values:stranded", "values:mean", "track:values"):
+                        if tier == "quick" and nchrom == 4 and n == 4:
+                            continue   # quick tier: two-stream ops on 4 chromosomes only up to n = 3 (time)
                         # the second stream gets its own chunking: every one for n <= 3, else the same cut set and the
                         # complementary cut set
                         if n <= 3:
@@ -836,7 +838,7 @@ def run(tier="quick", seed=0):
                     "computation-graph expressions, per-chromosome pipelines on genomes of 1..4 chromosomes with every "
                     "per-chromosome entry count, reader-made chunks for every min_chunk_size); seeded cut sets above the bound; "
                     "distinct = distinct (kind, computation, dataset, cut set); non-trivial = all (n=1 / one chunk are the base cases)",
-                    budget_s=55 if tier == "quick" else 560)
+                    budget_s=60 if tier == "quick" else 570)
     quick = tier == "quick"
     nm = NMAX[tier]
     maxper, gmax = genomic_bounds(tier)
@@ -853,10 +855,10 @@ def run(tier="quick", seed=0):
         "rechunk": "n 1..%d x n_entries 1..n+1 x {chunk_entries, chunk_lines} x {ndarray, dataclass}" % nm["rechunk"],
         "graph n": "1..%d" % nm["graph"], "graph ops": list(GRAPH_OPS),
         "genomic": "1..4 chromosomes, 0..%d entries per chromosome, n <= %s (by number of chromosomes); second stream: all cuts "
-                   "for n<=3, else same + complementary cut set; n=10 x 2 datasets x %s"
+                   "for n<=3, else same + complementary cut set (quick: two-stream ops on 4 chromosomes only for n<=3); n=10 x 2 datasets x %s"
                    % (maxper, gmax, "10 sampled cuts" if quick else "all 512 cuts"),
         "genomic ops": list(GENOMIC_OPS),
-        "file": "BED files of 4..8 lines x every min_chunk_size 12..file size+2",
+        "file": "BED files of %s lines x every min_chunk_size 12..file size+2 x {groupby, mean, bincount, pileup sum}" % ("4..5" if quick else "1..8"),
     }
     with TmpDir() as tmp:
         for kind, gen in GENS:
